@@ -6,18 +6,20 @@ Mirrors `crates/lsp/src/lib.rs`:
   * `on_open`   (246-274): skip when outside the first workspace folder; language inferred
                 from the uri's path (else return); **always** publish, then `map.insert`
                 (replaces whatever was stored, whatever its version);
-  * `on_change` (276-301): `text = &params.content_changes[0].text` (index panic when the
-                array is empty; later elements are never looked at); language inferred (else
-                return); `map.get_mut(uri)?` (unknown uri ⇒ ignored); `stored.version >
-                incoming` ⇒ ignored (so an **equal** version is accepted and replaces);
-                otherwise replace and publish;
+  * `on_change` (276-311): `text = &params.content_changes.last()?.text` (full sync: the last
+                change holds the resulting document; an empty list ⇒ return, nothing happens);
+                language inferred (else return); `map.get_mut(uri)?` (unknown uri ⇒ ignored);
+                `stored.version > incoming` ⇒ ignored (so an **equal** version is accepted and
+                replaces); otherwise replace, release the map guard, publish;
   * `on_close`  (302-304): `map.remove(uri)`; nothing is published;
   * `publish_diagnostics` (223-230): diagnostics = a function of (uri, stored text), sent
                 with `Some(version)`.
 
 The handlers are modelled as run one after the other (each notification completely handled
-before the next one is read).  `tower-lsp` dispatches up to 4 handlers concurrently; what
-that can do is outside this sequential model (see the report, "unawaited" oracle).
+before the next one is read): `sg lsp` builds the server with `concurrency_level(1)`
+(crates/cli/src/lsp.rs), so this is how the shipped server dispatches; the oracle unit
+`lsp_unawaited` checks it end to end on the real process.  No handler has a panic site left
+(the former `content_changes[0]` is gone), so `step` is total.
 A publish carries the *text* it was computed from: diagnostics are a function of
 (uri, text) for fixed rules, the harness maps texts to diagnostics.
 -/
@@ -65,10 +67,6 @@ def remove : State → Uri → State
 /-- `DashMap::insert` / `*guard = …`: replaces the entry of `u` -/
 def insert (s : State) (u : Uri) (v : Version) (t : Text) : State := (u, v, t) :: remove s u
 
-inductive Panic
-  | contentChangesIndex       -- `params.content_changes[0]` on an empty array
-  deriving DecidableEq, Repr
-
 /-- `Backend::on_open` -/
 def onOpen (cfg : Config) (s : State) (u : Uri) (v : Version) (t : Text) : State × List Publish :=
   if cfg.outside u then (s, [])
@@ -77,38 +75,34 @@ def onOpen (cfg : Config) (s : State) (u : Uri) (v : Version) (t : Text) : State
 
 /-- `Backend::on_change` -/
 def onChange (cfg : Config) (s : State) (u : Uri) (v : Version) (ts : List Text) :
-    Except Panic (State × List Publish) :=
-  match ts with
-  | [] => .error .contentChangesIndex
-  | t :: _ =>
-    if !cfg.langKnown u then .ok (s, [])
+    State × List Publish :=
+  match ts.getLast? with
+  | none => (s, [])                          -- `content_changes.last()?`
+  | some t =>
+    if !cfg.langKnown u then (s, [])
     else match lookup s u with
-      | none => .ok (s, [])
+      | none => (s, [])
       | some (stored, _) =>
-        if stored > v then .ok (s, [])          -- "skip old version update"
-        else .ok (insert s u v t, [⟨u, v, t⟩])
+        if stored > v then (s, [])            -- "skip old version update"
+        else (insert s u v t, [⟨u, v, t⟩])
 
 /-- `Backend::on_close` -/
 def onClose (s : State) (u : Uri) : State × List Publish := (remove s u, [])
 
-def step (cfg : Config) (s : State) : Op → Except Panic (State × List Publish)
-  | .open u v t => .ok (onOpen cfg s u v t)
+def step (cfg : Config) (s : State) : Op → State × List Publish
+  | .open u v t => onOpen cfg s u v t
   | .change u v ts => onChange cfg s u v ts
-  | .close u => .ok (onClose s u)
+  | .close u => onClose s u
 
 structure RunResult where
   state : State
   pubs : List Publish          -- the publish log, oldest first
-  crashed : Bool               -- a handler panicked: the server task is gone
   deriving Repr, DecidableEq
 
-/-- handle the notifications one after the other; a panic ends the server -/
+/-- handle the notifications one after the other -/
 def runFrom (cfg : Config) : State → List Publish → List Op → RunResult
-  | s, acc, [] => ⟨s, acc, false⟩
-  | s, acc, op :: ops =>
-    match step cfg s op with
-    | .ok (s', ps) => runFrom cfg s' (acc ++ ps) ops
-    | .error _ => ⟨s, acc, true⟩
+  | s, acc, [] => ⟨s, acc⟩
+  | s, acc, op :: ops => runFrom cfg (step cfg s op).1 (acc ++ (step cfg s op).2) ops
 
 def run (cfg : Config) (h : List Op) : RunResult := runFrom cfg [] [] h
 
